@@ -1,32 +1,29 @@
 """C10 — blob exchange: honest transfer completes, lying peers never poison (part decided).
 
-Deductive part (real AST of lbry/blob_exchange/{client,server,serialization}.py and AbstractBlob.set_length,
-symbolically executed against duck-typed transports / futures / writers / blob managers defined in this file):
-
-  server.handle_request        blob bytes leave only for a blob whose get_is_verified() is true, immediately after the one
-                               header of the response, and that header names exactly blob.blob_hash and blob.length; an
-                               unverified blob is neither announced nor sent; availability answers are truthful; a failed
-                               or timed-out transfer closes the connection; the standard request for a held blob is served.
-  server.data_received[oversized]  len(buffer)+len(data) >= 1200 closes the connection, nothing is parsed or handled.
-  client._write / client.data_received[body]   the writer never receives more than length - received bytes, what it
-                               receives is exactly the prefix of the fragment, the counter never passes the length.
-  client.data_received[header] with json.loads as an UNINTERPRETED parser (value drawn from a catalogue of shapes, or
-                               ValueError): while no response has been recognised the buffer is exactly all bytes received and
-                               nothing else changes; when the (unique) '}'-terminated JSON prefix is recognised, the bytes that
-                               follow it -- and only those, capped at the announced length -- reach the writer, the length is
-                               set only from a response naming the requested hash, a response naming another hash delivers
-                               nothing.  Together with the step for bare body fragments this is the induction showing that the
-                               fragmentation of the server->client stream is irrelevant.
-  client.data_received[body after bare header]   first body fragment after a header that arrived alone: written (capped)
-                               unless the fragment itself starts with something that parses as a response (known finding C10-F1).
-  client._download_blob        success (the protocol object) is returned only if the peer announced no wrong hash or length,
-                               accepted the rate, the response future and the writer's future completed with results and the
-                               connection was not closed meanwhile; every other outcome closes transport and writer handle;
-                               exactly one request naming exactly our hash is sent.
-
-Bounded stand-ins (run-time contract checks of the REAL client, server, BlobBuffer/BlobFile and HashBlobWriter wired through
-in-memory transports, never counted as proved): all re-chunkings from a catalogue in both directions, several requests per
-connection, the misbehaviour catalogue in both roles, request framing on the server.
+DEDUCTIVE: the real AST of lbry/blob_exchange/{client,server,serialization}.py and AbstractBlob.set_length is symbolically executed
+against duck-typed transports / futures / writers / blob managers.  json: dumps of a structure with symbolic leaves is an unknown
+ASCII text t with loads(t) == the structure; loads of ARBITRARY text is an uninterpreted parser that raises ValueError or returns a
+value from a catalogue of the shapes the code can tell apart.
+ server.handle_request: blob bytes leave only for a blob with get_is_verified(), right after the single header of the response,
+   which names exactly blob.blob_hash and blob.length (not the requested hash); an unverified blob is neither announced nor sent;
+   availability is truthful; a failed / timed-out transfer closes; the standard request for a held blob is fully answered.
+ server.data_received: [oversized] len(buffer)+len(fragment) >= 1200 closes, nothing parsed/handled/answered; [framing] for an
+   ARBITRARY buffer and fragment below the limit: no '}' -> buffered; else ALL bytes so far are parsed as ONE request: invalid JSON /
+   no request key closes, a well-formed request reaches handle_request once with exactly its parts, ill-typed values raise.
+ client._write, data_received[body]: the writer never gets more than length - received bytes, exactly the fragment's prefix.
+ client.data_received[header step]: ARBITRARY buffer and fragment, loads uninterpreted, scan loop by invariant: either everything is
+   still buffered and nothing changed, or a response was recognised; a delivered response is what the '}'-terminated prefix in front
+   of the rest parses to, never names another blob, alone sets the length, and exactly the bytes after it, capped, reach the writer.
+ client.data_received[honest header ..]: the REAL serialised header (concrete, real json, loop unrolled) cut at many positions and
+   followed by an ARBITRARY body fragment: recognised, exactly the body (capped) reaches the writer.
+ client.data_received[body after bare header]: first body fragment after a lone header is written capped -- unless it starts with a
+   text that parses as a response header (known finding C10-F1, excluded by the precondition, reproduced by transfer.honest).
+ client.data_received[not expecting]: unsolicited bytes close; bytes on a closing transport are dropped.
+ client._download_blob: success only if no wrong hash/length was announced, rate accepted, both futures completed, not closed
+   meanwhile; the honest answer succeeds; every failure closes transport and writer; one request naming exactly our hash.
+BOUNDED (real client, server, BlobFile, HashBlobWriter on a real loop over an in-memory re-chunking wire; not counted as proved):
+transfer.honest (blobs x re-chunkings x sequences), transfer.lying server / lying client (misbehaviour catalogues, time-outs).
+KNOWN FINDINGS: C10-F1 body bytes re-parsed as a header; C10-F2 stale announced length blocks honest peers.
 """
 import asyncio
 import json
@@ -34,10 +31,11 @@ import logging
 import time
 import z3
 from pyvc.api import *
-from pyvc.speclib import implies, forall
+from pyvc.speclib import implies
 from pyvc.values import (Raise, VStr, VBytes, VInt, VBool, VRef, VTuple, VNone, VExc, HList, HDict, NotConcrete, fresh_name,
                          Unsupported)
 from pyvc import builtins_model as _bm
+from pyvc.segs import VSegs, to_vbytes
 from lbry.error import InvalidBlobHashError, InvalidDataError
 from lbry.blob import MAX_BLOB_SIZE
 from lbry.blob.blob_file import AbstractBlob
@@ -49,6 +47,7 @@ from lbry.blob_exchange.serialization import (BlobResponse, BlobRequest, BlobAva
 from lbry.blob_exchange.server import BlobServerProtocol
 
 logging.getLogger('lbry').addHandler(logging.NullHandler())     # native runs: keep the expected warnings off stderr
+logging.getLogger('asyncio').addHandler(logging.NullHandler())
 
 REQUEST_LIMIT = 1200        # "a standard request will be 295 bytes"; requests of this size or more are refused
 RESPONSE_KEYS = ('lbrycrd_address', 'available_blobs', 'blob_data_payment_rate', 'incoming_blob')
@@ -189,10 +188,13 @@ def new_client(blob, writer, fut, buf, received):
     p._response_fut = fut
     p.buf = buf
     p._blob_bytes_received = received
+    p.closed = FakeEvent()
     return p
 
 
 # ====================================================================== library models (trusted, see TRUSTED)
+# asyncio.Event / asyncio.wait_for / time.perf_counter: the engine's own models (pyvc.aio, pyvc.stdmodels) take precedence when they
+# are installed; the three handlers below are fall-backs with the same contract.
 
 @model_for(asyncio.Event)
 def _m_event(interp, st, args, kwargs):
@@ -259,9 +261,82 @@ def _m_set(interp, st, args, kwargs):
 # ---- json: dumps/loads pair on structures, and loads as an uninterpreted parser on arbitrary text
 
 _DUMPED = {}
-_JKIND = z3.Function('json_kind', z3.StringSort(), z3.IntSort())
-_JSTR = z3.Function('json_str', z3.StringSort(), z3.IntSort(), z3.StringSort())
-_JINT = z3.Function('json_int', z3.StringSort(), z3.IntSort(), z3.IntSort())
+# the uninterpreted parser is indexed by (stream, prefix length): json_kind(s, n) is the outcome of json.loads(s[:n])
+_JKIND_F = z3.Function('json_kind', z3.StringSort(), z3.IntSort(), z3.IntSort())
+_JSTR_F = z3.Function('json_str', z3.StringSort(), z3.IntSort(), z3.IntSort(), z3.StringSort())
+_JINT_F = z3.Function('json_int', z3.StringSort(), z3.IntSort(), z3.IntSort(), z3.IntSort())
+
+
+def _flat(v):
+    """segment-structured bytes -> flat bytes value"""
+    return to_vbytes(v) if isinstance(v, VSegs) else v
+
+
+def _resolve(st, t):
+    """resolve if-then-else nodes of an integer term whose condition is decided by the path condition (arithmetic abstraction)"""
+    if z3.is_app(t) and t.decl().kind() == z3.Z3_OP_ITE:
+        c = t.arg(0)
+        if st.entails(c):
+            return _resolve(st, t.arg(1))
+        if st.entails(z3.Not(c)):
+            return _resolve(st, t.arg(2))
+        return z3.If(c, _resolve(st, t.arg(1)), _resolve(st, t.arg(2)))
+    if z3.is_app(t) and t.decl().kind() in (z3.Z3_OP_ADD, z3.Z3_OP_SUB) and t.num_args() > 0:
+        kids = [_resolve(st, k) for k in t.children()]
+        out = kids[0]
+        for k in kids[1:]:
+            out = out + k if t.decl().kind() == z3.Z3_OP_ADD else out - k
+        return z3.simplify(out)
+    return t
+
+
+def _index_lemmas(st, t, seen):
+    """true facts about str.indexof results with a one-byte needle occurring in t, added to the path condition (they help the
+    arithmetic abstraction and z3's sequence solver): -1 <= r < max(len(s), 1), and r >= 0 implies s[r] == needle"""
+    if not z3.is_app(t) or t.get_id() in seen:
+        return
+    seen.add(t.get_id())
+    if t.decl().kind() == z3.Z3_OP_SEQ_INDEX and z3.is_string_value(t.arg(1)) and len(t.arg(1).as_string()) == 1:
+        st.assume(z3.And(t >= -1, t < z3.If(z3.Length(t.arg(0)) > 0, z3.Length(t.arg(0)), 1)))
+        st.assume(z3.Implies(t >= 0, z3.SubString(t.arg(0), t, 1) == t.arg(1)))
+    for k in t.children():
+        _index_lemmas(st, k, seen)
+
+
+def _prefix_of(st, t):
+    """t denotes a prefix of some stream s: -> (s, integer term n) with t == s[:n]; anything else is its own stream"""
+    if z3.is_string_value(t) and t.as_string() == '':
+        return None, z3.IntVal(0)
+    if z3.is_app(t) and t.decl().kind() == z3.Z3_OP_ITE:
+        b1, n1 = _prefix_of(st, t.arg(1))
+        b2, n2 = _prefix_of(st, t.arg(2))
+        if b1 is None or b2 is None or b1.eq(b2):
+            return (b1 if b1 is not None else b2), z3.If(t.arg(0), n1, n2)
+    if z3.is_app(t) and t.decl().kind() == z3.Z3_OP_SEQ_EXTRACT and z3.is_int_value(t.arg(1)) and t.arg(1).as_long() == 0:
+        b, n = t.arg(0), t.arg(2)
+        return b, z3.If(n < 0, z3.IntVal(0), z3.If(n > z3.Length(b), z3.Length(b), n))
+    return t, z3.Length(t)
+
+
+class _Parsed:
+    """json_kind / json_str / json_int of one text"""
+
+    def __init__(self, st, t):
+        _index_lemmas(st, t, set())
+        base, n = _prefix_of(st, t)
+        if base is None:
+            base = z3.StringVal('')
+        self.base, self.n = base, z3.simplify(_resolve(st, z3.simplify(n)))
+
+    @property
+    def kind(self):
+        return _JKIND_F(self.base, self.n)
+
+    def s(self, i):
+        return _JSTR_F(self.base, self.n, i)
+
+    def i(self, i):
+        return _JINT_F(self.base, self.n, i)
 
 
 def _snapshot(st, v):
@@ -310,14 +385,12 @@ def _m_dumps(interp, st, args, kwargs):
 
 
 def _response_catalogue():
-    """shapes a parsed server->client text can have, as far as the client code can tell them apart"""
-    shapes = [('int',), ('list',), ('dict', None, None, None, None, False), ('dict', None, None, None, None, True)]
+    """shapes a parsed server->client text can have, as far as the client code can tell them apart:
+    (kind, incoming_blob, has price answer, other response key, foreign key)"""
+    shapes = [('int',), ('list',), ('dict', None, False, False, False), ('dict', None, False, False, True)]
     for incoming in (None, 'error', 'ok', 'no_hash', 'not_dict'):
-        for avail in (None, 'one'):
-            for rate in (None, 'str'):
-                for addr in (None, 'str'):
-                    if incoming or avail or rate or addr:
-                        shapes.append(('dict', incoming, avail, rate, addr, False))
+        for rate in (False, True):
+            shapes.append(('dict', incoming, rate, not incoming and not rate, False))
     return shapes
 
 
@@ -326,33 +399,45 @@ _RESPONSE_SHAPES = _response_catalogue()
 
 def _build_shape(st, shape, t):
     if shape[0] == 'int':
-        return VInt(_JINT(t, 0))
+        return VInt(t.i(0))
     if shape[0] == 'list':
         return st.alloc(HList(items=[]))
-    _, incoming, avail, rate, addr, foreign = shape
+    _, incoming, rate, avail, foreign = shape
     d = {}
     if foreign:
-        d['error'] = VStr(_JSTR(t, 5))
+        d['error'] = VStr(t.s(5))
     if incoming == 'error':
-        d['incoming_blob'] = st.alloc(HDict({'error': VStr(_JSTR(t, 0))}))
+        d['incoming_blob'] = st.alloc(HDict({'error': VStr(t.s(0))}))
     elif incoming == 'ok':
-        d['incoming_blob'] = st.alloc(HDict({'blob_hash': VStr(_JSTR(t, 1)), 'length': VInt(_JINT(t, 1))}))
+        d['incoming_blob'] = st.alloc(HDict({'blob_hash': VStr(t.s(1)), 'length': VInt(t.i(1))}))
     elif incoming == 'no_hash':
-        d['incoming_blob'] = st.alloc(HDict({'length': VInt(_JINT(t, 1))}))
+        d['incoming_blob'] = st.alloc(HDict({'length': VInt(t.i(1))}))
     elif incoming == 'not_dict':
-        d['incoming_blob'] = VInt(_JINT(t, 2))
+        d['incoming_blob'] = VInt(t.i(2))
     if rate:
-        d['blob_data_payment_rate'] = VStr(_JSTR(t, 2))
+        d['blob_data_payment_rate'] = VStr(t.s(2))
     if avail:
-        d['available_blobs'] = st.alloc(HList(items=[VStr(_JSTR(t, 3))]))
-    if addr:
-        d['lbrycrd_address'] = VStr(_JSTR(t, 4))
+        d['available_blobs'] = st.alloc(HList(items=[VStr(t.s(3))]))
     return st.alloc(HDict(d))
+
+
+def _kinds(pred):
+    return [i for i, shape in enumerate(_RESPONSE_SHAPES) if shape[0] == 'dict' and pred(shape)]
+
+
+def _kind_in(t, idxs):
+    return z3.Or([t.kind == i for i in idxs])
+
+
+_K_RESPONSE = _kinds(lambda s: not s[4] and (s[1] or s[2] or s[3]))
+_K_OK = _kinds(lambda s: s[1] == 'ok')
+_K_ERROR = _kinds(lambda s: s[1] == 'error')
+_K_MALFORMED = _kinds(lambda s: s[1] in ('no_hash', 'not_dict'))
 
 
 @model_for(json.loads)
 def _m_loads(interp, st, args, kwargs):
-    v = args[0]
+    v = _flat(args[0])
     if v.concrete:
         yield from _bm._run_native(interp, st, json.loads, [v.v], {})
         return
@@ -365,8 +450,8 @@ def _m_loads(interp, st, args, kwargs):
     interp.assumptions.add("json.loads of arbitrary text: ValueError or a value from the catalogue of response shapes "
                            "(int, list, empty dict, dict with a foreign key, every combination of the four response keys with "
                            "well- and ill-typed incoming_blob), all leaves unconstrained functions of the text")
-    t = v.term()
-    k = _JKIND(t)
+    t = _Parsed(st, v.term())
+    k = t.kind
     st.assume(z3.And(k >= -1, k < len(_RESPONSE_SHAPES)))
     bad = st.copy()
     if bad.assume(k == -1):
@@ -379,34 +464,116 @@ def _m_loads(interp, st, args, kwargs):
 
 # ====================================================================== specification helpers (protocol definition)
 
-class _NotJson:
-    pass
-
-
-NOT_JSON = _NotJson()
-
-
-def parse_json(text):
+def _parse(text):
     try:
-        return json.loads(text)
+        return True, json.loads(text)
     except ValueError:
-        return NOT_JSON
+        return False, None
 
 
-def is_response_dict(v):
-    """a server->client header: a non-empty JSON object that only uses the four response keys"""
+def _is_response_dict(v):
     return isinstance(v, dict) and len(v) > 0 and all(k in RESPONSE_KEYS for k in v)
 
 
-def header_ends_at(text, q):
-    """text[:q] is a complete JSON document closed by '}'"""
-    return 0 < q <= len(text) and text[q - 1:q] == b'}' and parse_json(text[:q]) is not NOT_JSON
+def hdr_is_response(text):
+    """text is a server->client header: a non-empty JSON object that only uses the four response keys"""
+    ok, v = _parse(text)
+    return ok and _is_response_dict(v)
+
+
+def hdr_blob(text):
+    """what a header says about the blob: ('none' | 'error' | 'malformed' | 'ok', blob_hash, length)"""
+    ok, v = _parse(text)
+    if not ok or not _is_response_dict(v) or 'incoming_blob' not in v:
+        return ('none', None, None)
+    inc = v['incoming_blob']
+    if not isinstance(inc, dict):
+        return ('malformed', None, None)
+    if 'error' in inc:
+        return ('error', None, None)
+    if not isinstance(inc.get('blob_hash'), str) or not isinstance(inc.get('length'), int) or isinstance(inc.get('length'), bool):
+        return ('malformed', None, None)
+    return ('ok', inc['blob_hash'], inc['length'])
+
+
+# the same observers on symbolic text, in terms of the uninterpreted parser (no forking)
+
+@model_for(hdr_is_response)
+def _m_hdr_is_response(interp, st, args, kwargs):
+    v = _flat(args[0])
+    yield st, (VBool(hdr_is_response(v.v)) if v.concrete else _bm.mk_bool(_kind_in(_Parsed(st, v.term()), _K_RESPONSE)))
+
+
+@model_for(hdr_blob)
+def _m_hdr_blob(interp, st, args, kwargs):
+    v = _flat(args[0])
+    if v.concrete:
+        yield st, _bm.lift(hdr_blob(v.v))
+        return
+    yield st, _blob_tuple(_Parsed(st, v.term()))
+
+
+def _blob_tuple(t):
+    kind = z3.If(_kind_in(t, _K_OK), z3.StringVal('ok'), z3.If(_kind_in(t, _K_ERROR), z3.StringVal('error'),
+                 z3.If(_kind_in(t, _K_MALFORMED), z3.StringVal('malformed'), z3.StringVal('none'))))
+    return VTuple([VStr(kind), VStr(t.s(1)), VInt(t.i(1))])
+
+
+def brace_before(text, p):
+    """the byte in front of position p is '}'"""
+    return p >= 1 and text[p - 1:p] == b'}'
+
+
+def is_response_at(text, p):
+    return hdr_is_response(text[:p])
+
+
+def blob_at(text, p):
+    return hdr_blob(text[:p])
+
+
+class _At:
+    """the uninterpreted parser applied to text[:p] for 0 <= p <= len(text) (what the positional observers are called with)"""
+
+    def __init__(self, text, p):
+        self.base, self.n = text.term(), p.term()
+
+    kind = _Parsed.kind
+    s = _Parsed.s
+    i = _Parsed.i
+
+
+@model_for(brace_before)
+def _m_brace_before(interp, st, args, kwargs):
+    text, p = _flat(args[0]), args[1]
+    if text.concrete and p.concrete:
+        yield st, VBool(brace_before(text.v, p.v))
+    else:
+        yield st, _bm.mk_bool(z3.And(p.term() >= 1, z3.SubString(text.term(), p.term() - 1, 1) == z3.StringVal('}')))
+
+
+@model_for(is_response_at)
+def _m_is_response_at(interp, st, args, kwargs):
+    text, p = _flat(args[0]), args[1]
+    if text.concrete and p.concrete:
+        yield st, VBool(is_response_at(text.v, p.v))
+    else:
+        yield st, _bm.mk_bool(_kind_in(_At(text, p), _K_RESPONSE))
+
+
+@model_for(blob_at)
+def _m_blob_at(interp, st, args, kwargs):
+    text, p = _flat(args[0]), args[1]
+    if text.concrete and p.concrete:
+        yield st, _bm.lift(blob_at(text.v, p.v))
+    else:
+        yield st, _blob_tuple(_At(text, p))
 
 
 def response_prefix(data):
     """some '}'-terminated prefix of data parses as a response header (native helper of the known-finding predicate)"""
     for q in range(1, len(data) + 1):
-        if data[q - 1:q] == b'}' and is_response_dict(parse_json(data[:q])):
+        if data[q - 1:q] == b'}' and hdr_is_response(data[:q]):
             return True
     return False
 
@@ -511,17 +678,8 @@ class ClientUnsolicited:
 def header_summary(response):
     b = response.get_blob_response()
     if b is None:
-        return ('no-blob-response', None, None)
-    if b.error:
-        return ('error', None, None)
-    return ('blob', b.blob_hash, b.length)
-
-
-def only_header_is(text, p):
-    """p (or nothing, when p is None) is the only position at which a '}'-terminated prefix of text is a JSON document"""
-    if p is None:
-        return forall(1, len(text) + 1, lambda q: not header_ends_at(text, q))
-    return header_ends_at(text, p) and forall(1, len(text) + 1, lambda q: implies(q != p, not header_ends_at(text, q)))
+        return (False, None, None)
+    return (True, b.blob_hash, b.length)
 
 
 def header_step(buf, data, my_hash, my_len):
@@ -535,103 +693,176 @@ def header_step(buf, data, my_hash, my_len):
     except Exception:       # noqa  (asyncio closes the connection when data_received raises)
         raised = True
     summary = header_summary(fut.value) if fut.state == 'result' else None
-    return raised, p.buf, fut.state, summary, writer.got, blob.length, p._blob_bytes_received, p.transport.closed
+    rest = fut.value.blob_data if fut.state == 'result' else None
+    return raised, p.buf, fut.state, summary, writer.got, blob.length, p._blob_bytes_received, p.transport.closed, rest
 
 
-@proof("C10", "client.data_received[header]")
-class ClientHeader:
-    """one step of the header phase for an arbitrary buffer (all bytes so far) and an arbitrary next fragment"""
-    inputs = dict(buf=TBytes(), data=TBytes(minlen=1), p=TOpt(TInt()), my_hash=TStr(), my_len=TOpt(TInt(1, MAX_BLOB_SIZE)))
+@proof("C10", "client.data_received[header step]")
+class ClientHeaderStep:
+    """one step of the header phase for an ARBITRARY buffer (all bytes so far) and an ARBITRARY next fragment, with json.loads
+    uninterpreted: either everything is still buffered and nothing else changed, or a response was recognised; a delivered
+    response is exactly what the '}'-terminated prefix in front of the undelivered rest parses to, it never names another blob,
+    the length is taken only from it, and exactly the bytes after it (capped) reach the writer"""
+    inputs = dict(buf=TBytes(), data=TBytes(minlen=1), my_hash=TStr(), my_len=TOpt(TInt(1, MAX_BLOB_SIZE)))
     note = "see samples(): honest headers cut at every position, with and without body bytes, and hostile headers"
 
-    def requires(buf, data, p):
-        return only_header_is(buf + data, p)
-
-    def run(buf, data, p, my_hash, my_len):
+    def run(buf, data, my_hash, my_len):
         return header_step(buf, data, my_hash, my_len)
 
-    def ensures_until_a_response_is_recognised_everything_is_buffered(buf, data, p, my_len, result):
-        raised, buf2, state, summary, got, length, received, closed = result
-        recognised = p is not None and is_response_dict(parse_json((buf + data)[:p]))
-        return recognised or (not raised and buf2 == buf + data and state == 'pending' and got == [] and length == my_len
-                              and received == 0 and not closed)
+    def ensures_buffers_everything_until_a_response_is_recognised(buf, data, my_len, result):
+        raised, buf2, state, summary, got, length, received, closed, rest = result
+        unchanged = state == 'pending' and got == [] and length == my_len and received == 0
+        if raised:
+            return not closed and (state == 'result' or unchanged)
+        return not closed and ((buf2 == buf + data and unchanged) or buf2 == b'') and (state == 'result' or unchanged)
 
-    def ensures_recognised_response_is_delivered(buf, data, p, my_hash, result):
-        raised, buf2, state, summary, got, length, received, closed = result
+    def ensures_delivered_response_is_the_parsed_prefix_and_names_our_blob(buf, data, my_hash, result):
+        raised, buf2, state, summary, got, length, received, closed, rest = result
+        if state != 'result':
+            return True
         text = buf + data
-        ok = True
-        if p is not None and is_response_dict(parse_json(text[:p])) and not raised:
-            hdr = parse_json(text[:p])
-            inc = hdr.get('incoming_blob')
-            names_other = isinstance(inc, dict) and 'error' not in inc and inc['blob_hash'] != my_hash
-            ok = buf2 == b'' and not closed
-            if names_other:
-                ok = ok and state == 'pending' and got == [] and received == 0
-            else:
-                ok = ok and state == 'result'
-                if isinstance(inc, dict) and 'error' not in inc:
-                    ok = ok and summary == ('blob', inc['blob_hash'], inc['length'])
-        return ok
+        p = len(text) - len(rest)
+        if not (p >= 1 and text[p:] == rest and brace_before(text, p) and is_response_at(text, p)):
+            return False
+        kind, h, n = blob_at(text, p)
+        if kind == 'ok':
+            return h == my_hash and summary == (True, h, n)
+        if kind == 'error':
+            return summary == (True, None, None)
+        return kind == 'malformed' or summary == (False, None, None)
 
-    def ensures_length_only_from_a_response_naming_our_hash(buf, data, p, my_hash, my_len, result):
-        raised, buf2, state, summary, got, length, received, closed = result
+    def ensures_length_and_bytes_come_from_that_response_only(buf, data, my_hash, my_len, result):
+        raised, buf2, state, summary, got, length, received, closed, rest = result
+        if state != 'result':
+            return True
         text = buf + data
-        expected = my_len
-        if p is not None and is_response_dict(parse_json(text[:p])):
-            inc = parse_json(text[:p]).get('incoming_blob')
-            if isinstance(inc, dict) and 'error' not in inc and 'blob_hash' in inc and inc['blob_hash'] == my_hash \
-                    and my_len is None and 0 <= inc['length'] <= MAX_BLOB_SIZE:
-                expected = inc['length']
-        return length == expected
-
-    def ensures_exactly_the_bytes_after_the_header_reach_the_writer(buf, data, p, my_hash, result):
-        raised, buf2, state, summary, got, length, received, closed = result
-        text = buf + data
-        ok = True
-        if p is not None and is_response_dict(parse_json(text[:p])):
-            inc = parse_json(text[:p]).get('incoming_blob')
-            body = text[p:]
-            if isinstance(inc, dict) and 'error' not in inc and 'blob_hash' in inc and inc['blob_hash'] == my_hash:
-                if raised:
-                    ok = got == []
-                elif len(body) == 0:
-                    ok = got == [] and received == 0
-                else:
-                    ok = length is not None and got == [body[:length]] and received == len(got[0])
-        return ok
+        kind, h, n = blob_at(text, len(text) - len(rest))
+        if kind != 'ok':
+            return length == my_len
+        if length != (n if my_len is None and 0 <= n <= MAX_BLOB_SIZE else my_len):
+            return False
+        if raised or len(rest) == 0:
+            return got == [] and received == 0
+        return length is not None and got == [rest[:length]] and received == len(got[0])
 
     def ensures_cap(result):
-        raised, buf2, state, summary, got, length, received, closed = result
+        raised, buf2, state, summary, got, length, received, closed, rest = result
         return length is None or (sum(len(g) for g in got) <= length and received <= length)
 
     def samples():
         h = 'ab' * 48
         other = 'cd' * 48
-        hdr = json.dumps({'incoming_blob': {'blob_hash': h, 'length': 5}, 'blob_data_payment_rate': 'RATE_ACCEPTED',
-                          'available_blobs': [h]}).encode()
-        texts = [(hdr + b'hello', len(hdr)), (hdr + b'hello}}{', len(hdr)), (hdr, len(hdr)), (hdr + b'hello world, too long', len(hdr))]
-        for text, p in texts:
+        hdr = honest_header(h, 5)
+        for text in (hdr + b'hello', hdr + b'hello}}{', hdr, hdr + b'hello world, too long'):
             for cut in range(0, len(text)):
                 for end in sorted({cut + 1, len(text)}):
-                    t = text[:end]
-                    yield dict(buf=t[:cut], data=t[cut:], p=(p if end >= p else None), my_hash=h, my_len=None)
-            yield dict(buf=b'', data=text, p=p, my_hash=h, my_len=5)
-            yield dict(buf=b'', data=text, p=p, my_hash=other, my_len=None)
-        for bad in (b'{"incoming_blob": {"error": "nope"}}xyz', b'{"incoming_blob": {"blob_hash": "%s", "length": 9999999}}xyz' % h.encode(),
-                    b'{"incoming_blob": {"blob_hash": "%s", "length": -1}}' % h.encode(), b'{"incoming_blob": 5}', b'{"incoming_blob": {"length": 5}}',
-                    b'{"blob_data_payment_rate": "CHEAP"}', b'{"error": "x"}', b'{}', b'[1, {"a": 2}]', b'{"available_blobs": []}zz',
-                    b'{"lbrycrd_address": "x"}'):
-            p = None
-            for q in range(1, len(bad) + 1):
-                if header_ends_at(bad, q):
-                    p = q
-            yield dict(buf=b'', data=bad, p=p, my_hash=h, my_len=None)
-            yield dict(buf=bad[:3], data=bad[3:], p=p, my_hash=h, my_len=7)
+                    yield dict(buf=text[:cut], data=text[cut:end], my_hash=h, my_len=None)      # end > cut: never an empty fragment
+            yield dict(buf=b'', data=text, my_hash=h, my_len=5)
+            yield dict(buf=b'', data=text, my_hash=other, my_len=None)
+        for bad in HOSTILE_HEADERS:
+            yield dict(buf=b'', data=bad, my_hash=h, my_len=None)
+            if len(bad) > 3:
+                yield dict(buf=bad[:3], data=bad[3:], my_hash=h, my_len=7)
 
 
-def body_misread_as_header(data):
-    """known finding C10-F1: the first body fragment after a bare header is parsed as a header again"""
-    return response_prefix(data)
+HOSTILE_HEADERS = [b'{"incoming_blob": {"error": "nope"}}xyz', b'{"incoming_blob": {"error": ""}}xyz',
+                   b'{"incoming_blob": {"blob_hash": "%s", "length": 9999999}}xyz' % (b'ab' * 48),
+                   b'{"incoming_blob": {"blob_hash": "%s", "length": -1}}' % (b'ab' * 48),
+                   b'{"incoming_blob": {"blob_hash": "%s", "length": "5"}}abcde' % (b'ab' * 48),
+                   b'{"incoming_blob": {"blob_hash": "%s", "length": 5}}abcde' % (b'cd' * 48),
+                   b'{"incoming_blob": 5}', b'{"incoming_blob": {"length": 5}}', b'{"blob_data_payment_rate": "CHEAP"}', b'{"error": "x"}',
+                   b'{}', b'[1, {"a": 2}]', b'{"available_blobs": []}zz', b'{"lbrycrd_address": "x"}', b'\xff\xfe}', b'}}}}']
+
+
+def honest_header(blob_hash, length):
+    """the header the real server serialises for a held blob (responses in the order send_response emits them)"""
+    return BlobResponse([BlobDownloadResponse(incoming_blob={'blob_hash': blob_hash, 'length': length}),
+                         BlobPriceResponse('RATE_ACCEPTED'), BlobAvailabilityResponse([blob_hash])]).serialize()
+
+
+def concrete_text_ahead():
+    """harness marker (natively a no-op): the text parsed in this proof starts with a concrete header, so the scanning loop of
+    _parse_blob_response has a concrete trip count and is unrolled instead of being summarised by its invariant, and every text
+    handed to json.loads is concrete (parsed by the real json module)"""
+    return None
+
+
+def _m_loads_concrete_only(interp, st, args, kwargs):
+    v = _flat(args[0])
+    if not v.concrete:
+        # would make the unrolled scan unbounded; on the unchanged code it does not happen (the scan stops at the concrete header)
+        raise Unsupported("json.loads of a symbolic text in a proof about a concrete header")
+    yield from _bm._run_native(interp, st, json.loads, [v.v], {})
+
+
+def _m_concrete_text_ahead(interp, st, args, kwargs):
+    interp.invariants = {k: v for k, v in interp.invariants.items() if k != (serialization._parse_blob_response.__qualname__, 1)}
+    interp.models[json.loads] = _m_loads_concrete_only
+    yield st, VNone
+
+
+def make_honest_header_proof(blob_hash, length, cuts, label):
+    header = honest_header(blob_hash, length)
+
+    def run(cut, body):
+        concrete_text_ahead()
+        return header_step(header[:cut], header[cut:] + body, blob_hash, None)
+
+    def ensures_header_recognised_whatever_follows(result):
+        raised, buf2, state, summary, got, blob_length, received, closed, rest = result
+        return not raised and not closed and buf2 == b'' and state == 'result' and summary == (True, blob_hash, length) \
+            and blob_length == length
+
+    def ensures_exactly_the_body_reaches_the_writer(body, result):
+        raised, buf2, state, summary, got, blob_length, received, closed, rest = result
+        if len(body) == 0:
+            return got == [] and received == 0
+        return got == [body[:length]] and received == len(got[0])
+
+    def samples():
+        for cut in cuts:
+            for body in (b'', b'x', b'}', b'x' * length, b'{"lbrycrd_address": "x"}' + b'y' * length, bytes(range(256)) * 3):
+                yield dict(cut=cut, body=body)
+
+    body = dict(inputs=dict(cut=TOneOf(*[TConst(c) for c in cuts]), body=TBytes()), run=staticmethod(run), samples=staticmethod(samples),
+                models={concrete_text_ahead: _m_concrete_text_ahead},
+                ensures_header_recognised_whatever_follows=staticmethod(ensures_header_recognised_whatever_follows),
+                ensures_exactly_the_body_reaches_the_writer=staticmethod(ensures_exactly_the_body_reaches_the_writer),
+                note=f"header of blob {blob_hash[:8]}.. length {length} ({len(header)} bytes) cut at {len(cuts)} positions; body fragments "
+                     f"empty, 1 byte, exact, oversize, JSON look-alike",
+                __doc__=f"the REAL serialised header for length {length} (concrete text, real json.loads), split between buffer and fragment at "
+                        f"{len(cuts)} positions, followed in the same fragment by an "
+                        f"ARBITRARY body fragment: the header is recognised and exactly the body bytes, capped at the length, reach the writer")
+    proof("C10", f"client.data_received[honest header {label}]")(type('HonestHeader', (), body))
+
+
+_H1 = honest_header('ab' * 48, 77)
+_INNER = _H1.index(b'}') + 1        # end of the nested incoming_blob object: a '}'-terminated prefix that is NOT a JSON document
+make_honest_header_proof('ab' * 48, 77, sorted(set(range(0, len(_H1), 9)) | set(range(_INNER - 3, _INNER + 3)) | set(range(len(_H1) - 12, len(_H1)))),
+                         '77 bytes')
+make_honest_header_proof('0123456789abcdef' * 6, 10, [0, 1, 17, 120, 200, len(honest_header('0123456789abcdef' * 6, 10)) - 1], '10 bytes')
+make_honest_header_proof('f' * 96, 1, [0, 60, len(honest_header('f' * 96, 1)) - 1], '1 byte')
+
+
+def no_response_prefix(data):
+    """no '}'-terminated prefix of data parses as a response header (for every prefix)"""
+    return not response_prefix(data)
+
+
+def _m_no_response_prefix(interp, st, args, kwargs):
+    # the universally quantified precondition is consumed by instantiation: see _m_loads_not_a_header
+    yield st, (VBool(no_response_prefix(_flat(args[0]).v)) if _flat(args[0]).concrete else VBool(True))
+
+
+def _m_loads_not_a_header(interp, st, args, kwargs):
+    """json.loads under the precondition no_response_prefix(data): the instance of the precondition for the prefix being parsed"""
+    v = _flat(args[0])
+    if not v.concrete:
+        t = _Parsed(st, v.term())
+        if not (z3.is_const(t.base) and t.base.decl().name() == 'data'):
+            raise Unsupported("parse of something that is not a prefix of the input fragment")
+        st.assume(z3.Implies(z3.SubString(t.base, t.n - 1, 1) == z3.StringVal('}'), z3.Not(_kind_in(t, _K_RESPONSE))))
+    yield from _m_loads(interp, st, args, kwargs)
 
 
 @proof("C10", "client.data_received[body after bare header]")
@@ -641,9 +872,10 @@ class ClientBodyAfterBareHeader:
     '}'-terminated text that parses as a response header (the code parses body bytes as a header again)."""
     inputs = dict(data=TBytes(minlen=1), length=TInt(1, MAX_BLOB_SIZE))
     note = "first body fragments with and without braces / JSON look-alikes, lengths below, at and above the fragment size"
+    models = {json.loads: _m_loads_not_a_header, no_response_prefix: _m_no_response_prefix}
 
     def requires(data):
-        return forall(1, len(data) + 1, lambda q: not (header_ends_at(data, q) and is_response_dict(parse_json(data[:q]))))
+        return no_response_prefix(data)
 
     def run(data, length):
         blob = LBlob('ab' * 48, length)
@@ -668,20 +900,20 @@ class ClientBodyAfterBareHeader:
 
 # ====================================================================== client: outcome of a request
 
-RATES = TOneOf(TNone(), TConst('RATE_ACCEPTED'), TConst('RATE_TOO_LOW'), TConst('RATE_UNSET'))
 AVAIL = TOneOf(TNone(), TList(TStr(), n=0), TList(TStr(), n=1), TList(TStr(), n=2))
 
 
 @proof("C10", "client._download_blob")
 class ClientDownload:
     """success is reported only when the peer announced nothing wrong and the writer completed; every failure closes"""
-    inputs = dict(my_hash=TStr(), my_len=TOpt(TInt(1, MAX_BLOB_SIZE)), avail=AVAIL, rate=RATES,
+    inputs = dict(my_hash=TStr(), my_len=TOpt(TInt(1, MAX_BLOB_SIZE)), avail=AVAIL, rate=TOpt(TStr()),
                   blob_kind=TOneOf(TConst('none'), TConst('error'), TConst('ok')), err=TStr(), resp_hash=TStr(), resp_len=TInt(),
                   fut=TStr(), wfin=TStr(), closed_race=TBool(), received=TInt(0))
     note = "see samples(): every single deviation from the honest response, each future outcome"
 
-    def requires(fut, wfin):
-        return fut in ('result', 'timeout', 'cancelled') and wfin in ('result', 'timeout', 'cancelled', 'badhash', 'baddata')
+    def requires(rate, fut, wfin):
+        return (rate is None or rate in ('RATE_ACCEPTED', 'RATE_TOO_LOW', 'RATE_UNSET')) \
+            and fut in ('result', 'timeout', 'cancelled') and wfin in ('result', 'timeout', 'cancelled', 'badhash', 'baddata')
 
     async def run(my_hash, my_len, avail, rate, blob_kind, err, resp_hash, resp_len, fut, wfin, closed_race, received):
         responses = []
@@ -826,8 +1058,8 @@ def headers(events):
 @proof("C10", "server.handle_request")
 class ServerHandleRequest:
     """blob bytes leave only for a verified blob, right after a header naming exactly that blob's hash and length"""
-    inputs = dict(req_avail=TOneOf(TNone(), TList(TStr(), n=1), TList(TStr(), n=2)), has_price=TBool(), has_addr=TBool(),
-                  req_blob=TOpt(TStr()), blob_hash=TStr(), length=TInt(), is_verified=TBool(), outcome=TStr(), sent=TOpt(TInt()),
+    inputs = dict(req_avail=TOneOf(TNone(), TList(TStr(), n=1)), has_price=TBool(), has_addr=TBool(),
+                  req_blob=TOpt(TStr()), blob_hash=TStr(), length=TInt(), is_verified=TBool(), outcome=TStr(), sent=TInt(),
                   completed=TList(TStr(), n=2))
     note = "see samples(): standard and partial requests x verified / unverified x every transfer outcome"
 
@@ -880,7 +1112,7 @@ class ServerHandleRequest:
 
     def ensures_failed_transfer_closes(is_verified, req_blob, outcome, sent, result):
         events = result[0]
-        failed = req_blob is not None and is_verified and (outcome != 'sent' or sent is None or sent <= 0)
+        failed = req_blob is not None and is_verified and (outcome != 'sent' or sent <= 0)
         return implies(failed, len(events) > 0 and events[-1][0] == 'close')
 
     def ensures_availability_is_truthful(req_avail, completed, result):
@@ -906,18 +1138,47 @@ class ServerHandleRequest:
 
     def samples():
         h, o = 'ab' * 48, 'cd' * 48
-        for req_avail in (None, [h], [h, o], [o, o]):
+        for req_avail in (None, [h], [o]):
             for req_blob in (None, h, o):
                 for is_verified in (False, True):
-                    for outcome, sent in (('sent', 5), ('sent', 0), ('sent', -1), ('sent', None), ('oserror', 0), ('valueerror', 0),
-                                          ('timeout', 0)):
+                    for outcome, sent in (('sent', 5), ('sent', 0), ('sent', -1), ('oserror', 0), ('valueerror', 0), ('timeout', 0)):
                         for completed in ([h, o], [o, o]):
                             yield dict(req_avail=req_avail, has_price=req_blob is not None, has_addr=req_avail is None,
                                        req_blob=req_blob, blob_hash=h if req_blob != o else o, length=5, is_verified=is_verified,
                                        outcome=outcome, sent=sent, completed=completed)
 
 
-# ====================================================================== server: request size cap
+@proof("C10", "server.handle_request[availability of two]")
+class ServerAvailabilityOfTwo:
+    """an availability question about two blobs is answered with exactly those of the two the server holds completed"""
+    inputs = dict(req_avail=TList(TStr(), n=2), has_price=TBool(), completed=TList(TStr(), n=2))
+
+    async def run(req_avail, has_price, completed):
+        requests = [BlobAvailabilityRequest(req_avail)]
+        if has_price:
+            requests.append(BlobPriceRequest(0.0))
+        manager = FakeBlobManager(None, completed)
+        server = BlobServerProtocol(None, manager, 'bServerAddress')
+        transport = EventTransport()
+        server.transport = transport
+        server.peer_address_and_port = '10.0.0.2:4444'
+        await server.handle_request(BlobRequest(requests))
+        return transport.events, manager.asked
+
+    def ensures_one_truthful_answer_and_nothing_else(req_avail, completed, result):
+        hs = headers(result[0])
+        return len(result[0]) == 1 and len(hs) == 1 and result[1] == [] and 'incoming_blob' not in hs[0] \
+            and all(x in req_avail and x in completed for x in hs[0]['available_blobs']) \
+            and all(x in hs[0]['available_blobs'] for x in req_avail if x in completed)
+
+    def samples():
+        h, o, z = 'ab' * 48, 'cd' * 48, 'ef' * 48
+        for req in ([h, o], [h, h], [o, z]):
+            for completed in ([h, o], [z, z], [o, o]):
+                yield dict(req_avail=req, has_price=True, completed=completed)
+
+
+# ====================================================================== server: data_received
 
 class RecordingLoop:
     def __init__(self):
@@ -925,61 +1186,954 @@ class RecordingLoop:
 
     def create_task(self, coro):
         self.tasks.append(coro)
-        if hasattr(coro, 'close'):
-            coro.close()
+
+
+class FramingServer(BlobServerProtocol):
+    """the real protocol with handle_request (verified on its own above) replaced by a recorder, so that the contract of
+    data_received -- which requests it hands over -- can be stated"""
+
+    def handle_request(self, request):
+        self.handled.append(request)
+        return None
+
+
+def new_server(buf):
+    manager = FakeBlobManager(None, [])
+    server = FramingServer(RecordingLoop(), manager, 'bServerAddress')
+    server.handled = []
+    server.transport = EventTransport()
+    server.peer_address_and_port = '10.0.0.2:4444'
+    server.buf = buf
+    return server
 
 
 @proof("C10", "server.data_received[oversized]")
 class ServerOversized:
-    """a request that reaches the size limit closes the connection: nothing is parsed, handled or answered"""
-    inputs = dict(buf=TBytes(), data=TBytes())
+    """a request that reaches the size limit closes the connection: nothing is parsed, handled or answered.  The buffer is n filler
+    bytes for EVERY n (only its length is read before the connection is closed), the fragment is arbitrary."""
+    inputs = dict(n_buf=TInt(0), data=TBytes())
     note = "buffer/fragment sizes around the limit"
 
-    def requires(buf, data):
-        return len(buf) + len(data) >= REQUEST_LIMIT
+    def requires(n_buf, data):
+        return n_buf + len(data) >= REQUEST_LIMIT
 
-    def run(buf, data):
-        manager = FakeBlobManager(None, [])
-        loop = RecordingLoop()
-        server = BlobServerProtocol(loop, manager, 'bServerAddress')
-        transport = EventTransport()
-        server.transport = transport
-        server.peer_address_and_port = '10.0.0.2:4444'
-        server.buf = buf
+    def run(n_buf, data):
+        server = new_server(b'"' * n_buf)
         server.data_received(data)
-        return transport.events, len(loop.tasks), manager.asked
+        return server.transport.events, len(server.loop.tasks), len(server.handled)
 
     def ensures_closed_and_nothing_else(result):
-        return result[0] == [('close',)] and result[1] == 0 and result[2] == []
+        return result[0] == [('close',)] and result[1] == 0 and result[2] == 0
 
     def samples():
         req = BlobRequest.make_request_for_blob_hash('ab' * 48).serialize()
-        for nb, nd in ((0, 1200), (1199, 1), (600, 600), (0, 5000), (1200, 0)):
-            yield dict(buf=b' ' * nb, data=(b' ' * nd + req)[-nd:] if nd else b'')
+        for nb, nd in ((0, 1200), (1199, 1), (600, 600), (0, 5000), (1200, 0), (905, len(req))):
+            yield dict(n_buf=nb, data=(b' ' * nd + req)[-nd:] if nd else b'')
+
+
+# ---- requests: the uninterpreted parser with the catalogue of request shapes
+
+REQUEST_KEYS = ('blob_data_payment_rate', 'requested_blobs', 'requested_blob', 'lbrycrd_address')
+
+
+def _request_catalogue():
+    """(kind, requested_blobs: None | 'one' | 'two' | 'empty' | 'int', price, requested_blob: None | 'str' | 'int', address, foreign)"""
+    shapes = [('int',), ('list',), ('null',), ('dict', None, False, None, False, False), ('dict', None, False, None, False, True)]
+    for avail, price, blob, addr in ((None, False, None, True), ('one', False, None, False), ('two', False, None, True),
+                                     ('empty', False, None, False), ('int', False, None, False), (None, True, None, False),
+                                     (None, False, 'str', False), ('one', True, 'str', True), ('one', True, 'str', False),
+                                     ('one', True, 'int', True), ('empty', True, 'str', True), ('one', False, 'str', True)):
+        shapes.append(('dict', avail, price, blob, addr, False))
+        shapes.append(('dict', avail, price, blob, addr, True))
+    return shapes
+
+
+_REQUEST_SHAPES = _request_catalogue()
+
+
+def _build_request_shape(st, shape, t):
+    if shape[0] == 'int':
+        return VInt(t.i(0))
+    if shape[0] == 'list':
+        return st.alloc(HList(items=[]))
+    if shape[0] == 'null':
+        return VNone
+    _, avail, price, blob, addr, foreign = shape
+    d = {}
+    if foreign:
+        d['zzz'] = VStr(t.s(5))
+    if avail == 'one':
+        d['requested_blobs'] = st.alloc(HList(items=[VStr(t.s(3))]))
+    elif avail == 'two':
+        d['requested_blobs'] = st.alloc(HList(items=[VStr(t.s(3)), VStr(t.s(4))]))
+    elif avail == 'empty':
+        d['requested_blobs'] = st.alloc(HList(items=[]))
+    elif avail == 'int':
+        d['requested_blobs'] = VInt(t.i(3))
+    if addr:
+        d['lbrycrd_address'] = VBool(True)
+    if price:
+        d['blob_data_payment_rate'] = VInt(t.i(2))
+    if blob == 'str':
+        d['requested_blob'] = VStr(t.s(1))
+    elif blob == 'int':
+        d['requested_blob'] = VInt(t.i(1))
+    return st.alloc(HDict(d))
+
+
+def _rkinds(pred):
+    return [i for i, shape in enumerate(_REQUEST_SHAPES) if shape[0] == 'dict' and pred(shape)]
+
+
+def _m_loads_requests(interp, st, args, kwargs):
+    """json.loads on the server: JSONDecodeError (-1), UnicodeDecodeError (-2) or a value from the catalogue of request shapes"""
+    v = _flat(args[0])
+    if v.concrete:
+        yield from _bm._run_native(interp, st, json.loads, [v.v], {})
+        return
+    interp.assumptions.add("json.loads of an arbitrary request text: JSONDecodeError, UnicodeDecodeError or a value from the catalogue of "
+                           "request shapes (int, list, null, dicts with the request keys well- and ill-typed, with and without a foreign "
+                           "key), all leaves unconstrained functions of the text")
+    t = _Parsed(st, v.term())
+    k = t.kind
+    st.assume(z3.And(k >= -2, k < len(_REQUEST_SHAPES)))
+    for code, cls in ((-1, json.JSONDecodeError), (-2, UnicodeDecodeError)):
+        bad = st.copy()
+        if bad.assume(k == code):
+            yield bad, Raise(VExc(cls, [VStr('invalid')]))
+    for i, shape in enumerate(_REQUEST_SHAPES):
+        s = st.copy()
+        if s.assume(k == i) and interp.feasible(s):
+            yield s, _build_request_shape(s, shape, t)
+
+
+def request_shape(text):
+    """what a request text parses to, by the protocol definition:
+    (status, has requested_blobs, has rate, has requested_blob, has address, requested_blob, first requested blob) with
+    status 'invalid' (not JSON / not UTF-8), 'not-a-request' (no request key), 'ill-typed' (requested_blobs not a non-empty list) or
+    'request'"""
+    try:
+        v = json.loads(text)
+    except ValueError:
+        return ('invalid', False, False, False, False, None, None)
+    if not isinstance(v, dict) or not any(k in v for k in REQUEST_KEYS):
+        return ('not-a-request', False, False, False, False, None, None)
+    avail = v.get('requested_blobs')
+    if 'requested_blobs' in v and (not isinstance(avail, list) or len(avail) == 0):
+        return ('ill-typed', True, False, False, False, None, None)
+    return ('request', 'requested_blobs' in v, 'blob_data_payment_rate' in v, 'requested_blob' in v, 'lbrycrd_address' in v,
+            v.get('requested_blob'), avail[0] if avail else None)
+
+
+def _m_request_shape(interp, st, args, kwargs):
+    v = _flat(args[0])
+    if v.concrete:
+        yield st, _bm.lift(request_shape(v.v))
+        return
+    t = _Parsed(st, v.term())
+    known = _rkinds(lambda s: s[1] or s[2] or s[3] or s[4])
+    ill = _rkinds(lambda s: s[1] in ('empty', 'int'))
+    ok = [i for i in known if i not in ill]
+
+    def among(pred):
+        return _kind_in(t, [i for i in ok if pred(_REQUEST_SHAPES[i])])
+    status = z3.If(t.kind < 0, z3.StringVal('invalid'), z3.If(_kind_in(t, ok), z3.StringVal('request'),
+                   z3.If(_kind_in(t, ill), z3.StringVal('ill-typed'), z3.StringVal('not-a-request'))))
+    # requested_blob is a str in every well-typed catalogue shape but one (an int): the observer reports it only when it is a str
+    yield st, VTuple([VStr(status), _bm.mk_bool(z3.Or(among(lambda s: s[1]), _kind_in(t, ill))), _bm.mk_bool(among(lambda s: s[2])),
+                      _bm.mk_bool(among(lambda s: s[3])), _bm.mk_bool(among(lambda s: s[4])), VStr(t.s(1)), VStr(t.s(3))])
+
+
+def handled_summary(server):
+    out = []
+    for r in server.handled:
+        a, b = r.get_availability_request(), r.get_blob_request()
+        out.append((a is not None, r.get_price_request() is not None, b is not None, r.get_address_request() is not None,
+                    b.requested_blob if b is not None else None, a.requested_blobs[0] if a is not None else None, len(r.requests)))
+    return out
+
+
+@proof("C10", "server.data_received[framing]")
+class ServerFraming:
+    """one fragment below the size limit, for an ARBITRARY buffer and fragment, json.loads uninterpreted: without a '}' the fragment
+    is buffered; with one, everything received so far is parsed as ONE request: invalid JSON / no request key closes the connection,
+    a well-formed request is handed over exactly once with exactly the parts its keys name, ill-typed values raise (asyncio closes);
+    data_received itself never answers"""
+    inputs = dict(buf=TBytes(), data=TBytes(minlen=1))
+    note = "see samples(): the standard request in every 2-fragment split and byte by byte, garbage, wrong types, trailing bytes"
+    models = {json.loads: _m_loads_requests, request_shape: _m_request_shape}
+
+    def requires(buf, data):
+        return len(buf) + len(data) < REQUEST_LIMIT
+
+    def run(buf, data):
+        server = new_server(buf)
+        raised = False
+        try:
+            server.data_received(data)
+        except Exception:       # noqa  (asyncio closes the connection when data_received raises)
+            raised = True
+        return raised, server.buf, server.transport.events, handled_summary(server), len(server.loop.tasks)
+
+    def ensures_fragment_without_closing_brace_is_buffered(buf, data, result):
+        raised, buf2, events, handled, tasks = result
+        return implies(b'}' not in data, not raised and buf2 == buf + data and events == [] and handled == [] and tasks == 0)
+
+    def ensures_never_answers_and_one_task_per_request(result):
+        raised, buf2, events, handled, tasks = result
+        return (events == [] or events == [('close',)]) and tasks == len(handled) and len(handled) <= 1
+
+    def ensures_everything_received_is_parsed_as_one_request(buf, data, result):
+        raised, buf2, events, handled, tasks = result
+        if b'}' not in data:
+            return True
+        status, has_avail, has_price, has_blob, has_addr, blob, first = request_shape(buf + data)
+        if status == 'invalid' or status == 'not-a-request':
+            return handled == [] and (raised or events == [('close',)])
+        if status == 'ill-typed':
+            return handled == [] and raised
+        if raised or events != [] or len(handled) != 1:
+            return False
+        h = handled[0]
+        return h[0] == has_avail and h[1] == has_price and h[2] == has_blob and h[3] == has_addr \
+            and (not has_blob or not isinstance(h[4], str) or h[4] == blob) and (not has_avail or h[5] == first) \
+            and h[6] == has_avail + has_price + has_blob + has_addr
+
+    def ensures_buffer_restarts_after_a_request(data, result):
+        raised, buf2, events, handled, tasks = result
+        # what follows the last '}' of the fragment: a suffix of it, free of '}', preceded by '}'
+        k = len(data) - len(buf2)
+        return implies(len(handled) == 1, data[k:] == buf2 and b'}' not in buf2 and brace_before(data, k))
+
+    def samples():
+        req = BlobRequest.make_request_for_blob_hash('ab' * 48).serialize()
+        for cut in range(len(req)):
+            yield dict(buf=req[:cut], data=req[cut:])
+            yield dict(buf=req[:cut], data=req[cut:cut + 1])
+        for text in SERVER_GARBAGE:
+            yield dict(buf=b'', data=text)
+            if len(text) > 2:
+                yield dict(buf=text[:2], data=text[2:])
+
+
+SERVER_GARBAGE = [b'}', b'{}', b'{"zzz": 1}', b'[]', b'5}', b'null}', b'\xff\xfe}', b'{"requested_blobs": []}', b'{"requested_blobs": 7}',
+                  b'{"requested_blob": 7}', b'{"requested_blob": "%s"}' % (b'ab' * 48), b'{"requested_blob": "%s"} \n' % (b'ab' * 48),
+                  b'{"requested_blob": "%s"}{"requested_blob": "%s"}' % (b'ab' * 48, b'ab' * 48), b'{"requested_blob": "%s"}xx' % (b'ab' * 48),
+                  b'{"lbrycrd_address": true}', b'{"blob_data_payment_rate": 0.0}', b'["requested_blob"]}', b'"requested_blob}"',
+                  b'{"requested_blobs": ["%s", "%s"], "lbrycrd_address": true}' % (b'ab' * 48, b'cd' * 48), b'{"a": {"requested_blob": "x"}}']
+
+
+# ====================================================================== bounded stand-ins: whole connections (native only)
+# Everything below runs the REAL BlobExchangeClientProtocol, BlobServerProtocol, BlobFile / BlobBuffer and HashBlobWriter on a real
+# asyncio loop; only the socket pair is replaced by an in-memory wire that re-chunks the byte stream.  Never counted as proved.
+
+import hashlib      # noqa: E402
+import os           # noqa: E402
+import shutil       # noqa: E402
+import tempfile     # noqa: E402
+from lbry.blob.blob_file import BlobFile, BlobBuffer      # noqa: E402
+from lbry.utils import get_lbry_hash_obj                  # noqa: E402
+
+FAST = 0.05         # every configured time-out (peer, idle, transfer) in the stand-ins, seconds
+
+
+def blob_hash_of(data):
+    h = get_lbry_hash_obj()
+    h.update(data)
+    return h.hexdigest()
+
+
+def pseudo_random(n, seed):
+    out = bytearray()
+    k = 0
+    while len(out) < n:
+        out += hashlib.sha512(b'%d/%d' % (seed, k)).digest()
+        k += 1
+    return bytes(out[:n])
+
+
+def chunks_of(stream, header_len, pattern):
+    """re-chunking catalogue; header_len = length of the first write of the burst (the JSON message)"""
+    h = min(header_len, len(stream))
+    if pattern == 'glued':
+        cuts = []
+    elif pattern == 'ones':
+        cuts = list(range(1, len(stream)))
+    elif pattern == 'hdr|body':
+        cuts = [h]
+    elif pattern == 'hdr-1|':
+        cuts = [h - 1]
+    elif pattern == 'hdr+1|':
+        cuts = [h + 1]
+    elif pattern == 'hdr ones|body':
+        cuts = list(range(1, h + 1))
+    elif pattern == 'hdr|body ones':
+        cuts = list(range(h, min(len(stream), h + 4096)))
+    elif pattern == 'mid hdr':
+        cuts = [h // 2]
+    elif pattern.startswith('k='):
+        k = int(pattern[2:])
+        cuts = list(range(k, len(stream), k))
+    else:
+        raise ValueError(pattern)
+    out, last = [], 0
+    for c in cuts:
+        if last < c < len(stream):
+            out.append(stream[last:c])
+            last = c
+    out.append(stream[last:])
+    return [c for c in out if c]
+
+
+class LoopFacade:
+    """the loop as blobs see it: the running loop, plus an in-memory sendfile (the real one needs a socket transport)"""
+
+    def __init__(self, loop):
+        self.loop = loop
+
+    def create_task(self, coro):
+        return self.loop.create_task(coro)
+
+    def run_in_executor(self, executor, fn, *args):
+        return self.loop.run_in_executor(executor, fn, *args)
+
+    def is_closed(self):
+        return False
+
+    async def sendfile(self, transport, handle, offset=0, count=None):
+        if transport.is_closing():
+            raise ConnectionResetError('closed')
+        data = handle.read(count)
+        transport.write(data)
+        return len(data)
+
+
+class Wire:
+    """one direction of a TCP connection: the sender's transport; bytes are queued per write and delivered re-chunked"""
+
+    def __init__(self, pattern):
+        self.pattern = pattern
+        self.queue = []
+        self.closed = False
+        self.delivered = 0
+        self.log = []
+
+    def get_extra_info(self, name):
+        return ('10.0.0.9', 4321)
+
+    def is_closing(self):
+        return self.closed
+
+    def write(self, data):
+        if not self.closed and data:
+            self.queue.append(bytes(data))
+
+    def close(self):
+        self.closed = True
+
+    def take(self):
+        burst, self.queue = self.queue, []
+        if not burst:
+            return []
+        self.log.append(burst)
+        return chunks_of(b''.join(burst), len(burst[0]), self.pattern)
+
+
+class ServerSide:
+    """blob manager as the server protocol uses it, holding REAL BlobFile objects in a temporary directory"""
+
+    def __init__(self, loop, blob_dir):
+        self.loop = loop
+        self.blob_dir = blob_dir
+        self.blobs = {}
+        self.completed_blob_hashes = set()
+        self.connection_manager = FakeConnectionManager()
+
+    def get_blob(self, blob_hash, length=None):
+        if blob_hash not in self.blobs:
+            self.blobs[blob_hash] = BlobFile(self.loop, blob_hash, length, None, self.blob_dir)
+        return self.blobs[blob_hash]
+
+    async def hold(self, data):
+        h = blob_hash_of(data)
+        with open(os.path.join(self.blob_dir, h), 'wb') as f:
+            f.write(data)
+        blob = self.get_blob(h, len(data))
+        self.completed_blob_hashes.add(h)
+        return blob
+
+
+class Connection:
+    """a client protocol and a server protocol (either may be replaced by a scripted liar) joined by two wires"""
+
+    def __init__(self, client, server, c2s, s2c):
+        self.client, self.server = client, server
+        self.to_server, self.to_client = Wire(c2s), Wire(s2c)
+        self.errors = []
+        self.lost = set()
+        client.connection_made(self.to_server)
+        server.connection_made(self.to_client)
+
+    def _deliver(self, wire, receiver, sender):
+        moved = False
+        for chunk in wire.take():
+            if receiver in self.lost:
+                break
+            moved = True
+            try:
+                receiver.data_received(chunk)
+            except Exception as err:       # noqa: asyncio closes the transport of a protocol whose data_received raises
+                self.errors.append(type(err).__name__)
+                self._lose(receiver, err)
+        return moved
+
+    def _lose(self, protocol, err):
+        if protocol not in self.lost:
+            self.lost.add(protocol)
+            (self.to_server if protocol is self.client else self.to_client).close()
+            protocol.connection_lost(err)
+
+    async def pump(self, until, rounds=40):
+        """move bytes both ways until `until()` holds or nothing has moved for a while"""
+        idle = 0
+        while not until() and idle < rounds:
+            moved = self._deliver(self.to_server, self.server, self.client)
+            await asyncio.sleep(0)
+            moved = self._deliver(self.to_client, self.client, self.server) or moved
+            # a side that closed its transport: the peer sees the connection go away
+            if self.to_client.closed and not self.to_client.queue:
+                self._lose(self.server, None)
+                self._lose(self.client, None)
+            if self.to_server.closed and not self.to_server.queue:
+                self._lose(self.client, None)
+                self._lose(self.server, None)
+            await asyncio.sleep(0)
+            idle = 0 if moved else idle + 1
+
+    @property
+    def closed(self):
+        return self.to_server.closed or self.to_client.closed
+
+
+PATIENT = 3.0       # time-outs of the honest runs (never expected to fire)
+SLACK = 2.0         # scheduling allowance when a run is expected to end by its time-outs
+
+
+def new_real_client(loop, timeout=PATIENT):
+    return BlobExchangeClientProtocol(loop, timeout)
+
+
+def new_real_server(loop, manager, timeout=PATIENT):
+    return BlobServerProtocol(loop, manager, 'bServerAddress', idle_timeout=timeout, transfer_timeout=timeout)
+
+
+async def download(conn, client, blob, budget=8.0):
+    """run client.download_blob(blob) over the connection; -> (succeeded, seconds)"""
+    loop = asyncio.get_running_loop()
+    task = loop.create_task(client.download_blob(blob))
+    t0 = loop.time()
+    while not task.done() and loop.time() - t0 < budget:
+        await conn.pump(task.done, rounds=3)
+        if not task.done():
+            await asyncio.sleep(FAST / 5)
+    if not task.done():
+        task.cancel()
+    try:
+        n, who = await task
+    except (asyncio.CancelledError, Exception):     # noqa
+        seconds = loop.time() - t0
+        await settle()
+        return False, seconds
+    seconds = loop.time() - t0
+    await settle()
+    return who is client, seconds
+
+
+async def settle():
+    """let callbacks, done-callbacks of writers and the executor job that stores a verified blob run"""
+    for _ in range(5):
+        await asyncio.sleep(0.002)
+
+
+def stored_bytes(blob):
+    if not blob.get_is_verified():
+        return None
+    if isinstance(blob, BlobFile):
+        with open(blob.file_path, 'rb') as f:
+            return f.read()
+    return blob._verified_bytes.getvalue()
+
+
+def new_client_blob(facade, blob_hash, directory):
+    return BlobFile(facade, blob_hash, None, None, directory) if directory else BlobBuffer(facade, blob_hash)
+
+
+BLOBS = {
+    '1 byte': b'x',
+    'text': b'hello world ' * 9,
+    'braces': b'}}}{{{}' * 5,
+    'json': b'{"a": 1}zz',
+    'sd blob': b'{"stream_name": "61", "blobs": [{"length": 2, "blob_num": 0, "iv": "00"}, {"length": 0, "blob_num": 1}], "key": "00"}',
+    'looks like a response': b'{"lbrycrd_address": "x"}' + b'y' * 40,
+    'looks like an incoming blob': b'{"incoming_blob": {"blob_hash": "00", "length": 1}}' + b'z' * 9,
+    '64 KiB': pseudo_random(65536, 1),
+    '2 MiB': pseudo_random(MAX_BLOB_SIZE, 2),
+}
+S2C_PATTERNS = ['glued', 'hdr|body', 'ones', 'hdr-1|', 'hdr+1|', 'hdr ones|body', 'hdr|body ones', 'mid hdr', 'k=2', 'k=7', 'k=64', 'k=1460',
+                'k=65536']
+C2S_PATTERNS = ['glued', 'ones', 'k=7', 'mid hdr', 'hdr-1|']
+
+
+def first_body_fragment(blob, pattern):
+    """the fragment that arrives when the header is complete and no body byte has been delivered yet (None: no such moment)"""
+    header = honest_header(blob_hash_of(blob), len(blob))
+    pos = 0
+    for chunk in chunks_of(header + blob, len(header), pattern):
+        if pos == len(header):
+            return chunk
+        pos += len(chunk)
+    return None
+
+
+def body_fragment_misread_as_header(names, s2c):
+    """predicate of known finding C10-F1 on the inputs of the whole-transfer stand-in"""
+    for name in names:
+        fragment = first_body_fragment(BLOBS[name], s2c)
+        if fragment is not None and response_prefix(fragment):
+            return True
+    return False
+
+
+@proof("C10", "transfer.honest")
+class HonestTransfer:
+    """BOUNDED stand-in (run-time contract check, no deductive part).  An honest client downloads a sequence of blobs over ONE
+    connection from an honest server that holds them, with both directions of the byte stream re-chunked: every download succeeds
+    and ends with the verified, byte-identical blob (in memory or on disk), and what the server put on the wire for each request is
+    exactly one header naming the blob's hash and length followed by exactly the blob's bytes."""
+    bounded_only = True
+    inputs = dict(names=TList(TStr()), c2s=TStr(), s2c=TStr(), on_disk=TBool())
+    note = ("blobs: 1 byte, text, braces, JSON, stream-descriptor JSON, two response look-alikes, 64 KiB, 2 MiB; server->client "
+            "re-chunkings: glued, header|body, 1-byte fragments, header-1 / header+1, header bytewise then body, header then body "
+            "bytewise, cut inside the header, fixed sizes 2/7/64/1460/65536; client->server: glued, 1-byte, 7-byte, two halves, all but "
+            "the last byte; sequences of 1-3 blobs (with a repeat) on one connection; client blob in memory and on disk; "
+            "2 MiB only with the coarse re-chunkings")
+
+    async def run(names, c2s, s2c, on_disk):
+        loop = asyncio.get_running_loop()
+        facade = LoopFacade(loop)
+        tmp = tempfile.mkdtemp(prefix='c10-')
+        try:
+            os.mkdir(os.path.join(tmp, 'server'))
+            os.mkdir(os.path.join(tmp, 'client'))
+            manager = ServerSide(facade, os.path.join(tmp, 'server'))
+            for name in names:
+                await manager.hold(BLOBS[name])
+            client, server = new_real_client(loop), new_real_server(loop, manager)
+            conn = Connection(client, server, c2s, s2c)
+            out = []
+            for name in names:
+                data = BLOBS[name]
+                blob = new_client_blob(facade, blob_hash_of(data), os.path.join(tmp, 'client') if on_disk else None)
+                if blob.get_is_verified():      # a repeat: already downloaded
+                    out.append((name, True, True, True, True))
+                    continue
+                sent_before = len(conn.to_client.log)
+                ok, seconds = await download(conn, client, blob)
+                bursts = conn.to_client.log[sent_before:]
+                wire_ok = len(bursts) == 1 and len(bursts[0]) == 2 and bursts[0][1] == data \
+                    and json.loads(bursts[0][0]).get('incoming_blob') == {'blob_hash': blob_hash_of(data), 'length': len(data)}
+                out.append((name, ok, blob.get_is_verified(), stored_bytes(blob) == data, wire_ok))
+                blob.close()
+            server.connection_lost(None)
+            return out, conn.errors
+        finally:
+            shutil.rmtree(tmp, ignore_errors=True)
+
+    def ensures_every_blob_arrives_verified_and_identical(result):
+        return all(ok and verified and identical for name, ok, verified, identical, wire_ok in result[0])
+
+    def ensures_wire_carries_one_exact_header_then_the_blob(result):
+        return all(wire_ok for name, ok, verified, identical, wire_ok in result[0])
+
+    def ensures_no_protocol_exception(result):
+        return result[1] == []
+
+    def samples():
+        small = [n for n in BLOBS if n not in ('64 KiB', '2 MiB')]
+        for s2c in S2C_PATTERNS:
+            for name in small:
+                if name != 'looks like an incoming blob' or s2c in ('glued', 'hdr|body', 'ones'):     # (its failures are stalls)
+                    yield dict(names=[name], c2s='glued', s2c=s2c, on_disk=False)
+        for c2s in C2S_PATTERNS[1:]:
+            for s2c in ('glued', 'hdr|body', 'ones'):
+                yield dict(names=['text'], c2s=c2s, s2c=s2c, on_disk=True)
+        for s2c in S2C_PATTERNS:
+            yield dict(names=['1 byte', 'braces', 'text'], c2s='ones', s2c=s2c, on_disk=True)
+            yield dict(names=['json', '1 byte', 'json'], c2s='glued', s2c=s2c, on_disk=False)
+        for s2c in ('glued', 'hdr|body', 'hdr+1|', 'k=1460', 'k=65536'):
+            yield dict(names=['2 MiB'], c2s='glued', s2c=s2c, on_disk=s2c in ('glued', 'k=1460'))
+        for s2c in ('ones', 'hdr-1|', 'hdr ones|body', 'mid hdr', 'k=7', 'k=64'):
+            yield dict(names=['64 KiB'], c2s='k=7', s2c=s2c, on_disk=False)
+
+
+# ---- lying server
+
+def stale_length_left_behind(lie):
+    """predicate of known finding C10-F2 on the inputs of the lying-server stand-in: the liar announced, for the requested hash, a
+    wrong length that set_length accepts (0..2 MiB) while the blob's length was still unknown"""
+    return lie in ('length one more', 'length one less', 'length zero')
+
+
+def lie_of_server(lie, blob, other):
+    """(list of writes answering the request, do the right bytes travel under a header naming the right hash and length) for one
+    entry of the misbehaviour catalogue; only in the second case may the blob end up verified"""
+    h, o = blob_hash_of(blob), blob_hash_of(other)
+
+    def header(blob_hash=h, length=len(blob), available=None, rate='RATE_ACCEPTED', **extra):
+        d = {'incoming_blob': {'blob_hash': blob_hash, 'length': length}, 'blob_data_payment_rate': rate,
+             'available_blobs': [h] if available is None else available}
+        d.update(extra)
+        return json.dumps({k: v for k, v in d.items() if v is not None}).encode()
+    flipped_first = bytes([blob[0] ^ 1]) + blob[1:]
+    flipped_last = blob[:-1] + bytes([blob[-1] ^ 0x80])
+    table = {
+        'wrong hash announced': ([header(blob_hash=o), blob], False),
+        'other blob announced and sent': ([header(blob_hash=o, length=len(other)), other], False),
+        'length one more': ([header(length=len(blob) + 1), blob], False),
+        'length one less': ([header(length=len(blob) - 1), blob], False),
+        'length zero': ([header(length=0), blob], False),
+        'length negative': ([header(length=-5), blob], False),
+        'length above the maximum': ([header(length=MAX_BLOB_SIZE + 1), blob], False),
+        'length is a string': ([header(length=str(len(blob))), blob], False),
+        'error response': ([json.dumps({'incoming_blob': {'error': 'no'}, 'blob_data_payment_rate': 'RATE_ACCEPTED',
+                                        'available_blobs': [h]}).encode(), blob], False),
+        'error response then the blob anyway': ([json.dumps({'incoming_blob': {'error': 'no'}}).encode() + blob], False),
+        'no availability answer': ([header(available=None).replace(b', "available_blobs": ["%s"]' % h.encode(), b''), blob], True),
+        'availability names another blob': ([header(available=[o]), blob], True),
+        'availability names two blobs': ([header(available=[h, o]), blob], True),
+        'rate too low': ([header(rate='RATE_TOO_LOW'), blob], True),
+        'no rate answer': ([header(rate=None), blob], True),
+        'unknown rate word': ([header(rate='CHEAP'), blob], False),
+        'malformed json': ([b'{"incoming_blob": {"blob_hash": }}', blob], False),
+        'json is a list': ([b'[{"incoming_blob": 1}]', blob], False),
+        'incoming_blob is a number': ([b'{"incoming_blob": 5}', blob], False),
+        'incoming_blob without hash': ([b'{"incoming_blob": {"length": %d}}' % len(blob), blob], False),
+        'foreign key in header': ([header(surprise=1), blob], False),
+        'oversized json': ([b'{"incoming_blob": "' + b'A' * (3 * MAX_BLOB_SIZE) + b'"}', blob], False),
+        'endless garbage with braces': ([b'}{' * 30000], False),
+        'first byte corrupted': ([header(), flipped_first], False),
+        'last byte corrupted': ([header(), flipped_last], False),
+        'short body then silence': ([header(), blob[:-1]], False),
+        'header only then silence': ([header()], False),
+        'no answer at all': ([], False),
+        'excess bytes after the blob': ([header(), blob + b'EXCESS' * 3], True),
+        'header twice': ([header(), header() + blob], False),
+        'body of another blob': ([header(), other[:len(blob)].ljust(len(blob), b'!')], False),
+        'honest': ([header(), blob], True),
+    }
+    return table[lie]
+
+
+SERVER_LIES = ['wrong hash announced', 'other blob announced and sent', 'length one more', 'length one less', 'length zero', 'length negative',
+               'length above the maximum', 'length is a string', 'error response', 'error response then the blob anyway',
+               'no availability answer', 'availability names another blob', 'availability names two blobs', 'rate too low',
+               'no rate answer', 'unknown rate word', 'malformed json', 'json is a list', 'incoming_blob is a number',
+               'incoming_blob without hash', 'foreign key in header', 'oversized json', 'endless garbage with braces',
+               'first byte corrupted', 'last byte corrupted', 'short body then silence', 'header only then silence', 'no answer at all',
+               'excess bytes after the blob', 'header twice', 'body of another blob', 'honest']
+
+
+class LyingServer:
+    """scripted peer in the server role: answers request number `position` with the lie, the others honestly"""
+
+    def __init__(self, blobs, lie, position, unsolicited=b''):
+        self.blobs, self.lie, self.position, self.unsolicited = blobs, lie, position, unsolicited
+        self.transport = None
+        self.buf = b''
+        self.seen = 0
+
+    def connection_made(self, transport):
+        self.transport = transport
+        if self.unsolicited:
+            transport.write(self.unsolicited)
+
+    def connection_lost(self, exc):
+        self.transport = None
+
+    def data_received(self, data):
+        self.buf += data
+        if not self.buf.endswith(b'}'):
+            return
+        wanted = json.loads(self.buf)['requested_blob']
+        self.buf = b''
+        blob = [b for b in self.blobs if blob_hash_of(b) == wanted][0]
+        other = [b for b in self.blobs if b is not blob][0]
+        writes, _ = lie_of_server(self.lie if self.seen == self.position else 'honest', blob, other)
+        self.seen += 1
+        for w in writes:
+            self.transport.write(w)
+
+
+@proof("C10", "transfer.lying server")
+class LyingServerTransfer:
+    """BOUNDED stand-in (run-time contract check, no deductive part).  The REAL client (blob on disk) against a scripted server that
+    misbehaves on the first request or on the second one (after an honest exchange on the same connection): the blob is verified
+    only with exactly the right bytes, otherwise it is not verified and nothing is left in the blob directory; the attempt ends
+    within the configured time-outs and closes the connection; afterwards the same blob downloads fine from an honest server."""
+    bounded_only = True
+    inputs = dict(lie=TStr(), position=TInt(0, 1), s2c=TStr(), unsolicited=TBool())
+    note = ("32 misbehaviours of the server (hash, length, availability, rate, JSON shape and size, body corrupted / short / excess / "
+            "foreign, silence) x at the first or the second request of a connection x re-chunkings glued, header|body (ten of them also "
+            "1-byte and 7-byte); unsolicited bytes before the first request; time-outs 0.05 s")
+
+    async def run(lie, position, s2c, unsolicited):
+        loop = asyncio.get_running_loop()
+        facade = LoopFacade(loop)
+        tmp = tempfile.mkdtemp(prefix='c10-')
+        try:
+            for d in ('server', 'client'):
+                os.mkdir(os.path.join(tmp, d))
+            first, target = BLOBS['text'], BLOBS['braces']
+            liar = LyingServer([first, target], lie, position, b'{"lbrycrd_address": "x"}' if unsolicited else b'')
+            client = new_real_client(loop)
+            conn = Connection(client, liar, 'glued', s2c)
+            if unsolicited:
+                await conn.pump(lambda: False, rounds=3)
+            reached = True
+            if position == 1:
+                warm = new_client_blob(facade, blob_hash_of(first), os.path.join(tmp, 'client'))
+                reached, _ = await download(conn, client, warm)
+                reached = reached and stored_bytes(warm) == first
+                warm.close()
+            blob = new_client_blob(facade, blob_hash_of(target), os.path.join(tmp, 'client'))
+            if not lie_of_server(lie, b'xx', b'yy')[1]:
+                client.peer_timeout = FAST      # the attempt is expected to end by closing or by this time-out
+            ok, seconds = await download(conn, client, blob)
+            verified, content = blob.get_is_verified(), stored_bytes(blob)
+            files = sorted(os.listdir(os.path.join(tmp, 'client')))
+            closed = conn.closed and client.transport is None
+            # afterwards: the same blob object, an honest server, a new connection
+            manager = ServerSide(facade, os.path.join(tmp, 'server'))
+            await manager.hold(target)
+            client2, server2 = new_real_client(loop), new_real_server(loop, manager)
+            conn2 = Connection(client2, server2, 'glued', 'hdr|body')
+            again, _ = await download(conn2, client2, blob) if not blob.get_is_verified() else (True, 0)
+            recovered = again and stored_bytes(blob) == target
+            blob.close()
+            server2.connection_lost(None)
+            expected_files = ([blob_hash_of(first)] if position == 1 and reached else []) + ([blob_hash_of(target)] if verified else [])
+            return dict(reached=reached, ok=ok, verified=verified, identical=content == target, seconds=seconds, closed=closed,
+                        clean=files == sorted(expected_files), recovered=recovered)
+        finally:
+            shutil.rmtree(tmp, ignore_errors=True)
+
+    def ensures_second_request_was_reached(unsolicited, result):
+        return unsolicited or result['reached']
+
+    def ensures_verified_only_with_the_right_bytes(lie, result):
+        right_bytes_travel = lie_of_server(lie, b'xx', b'yy')[1]
+        return (not result['verified'] or (result['identical'] and right_bytes_travel)) and (not result['ok'] or result['verified'])
+
+    def ensures_honest_answer_succeeds(lie, unsolicited, result):
+        return unsolicited or lie not in ('honest', 'excess bytes after the blob') or (result['ok'] and result['verified'])
+
+    def ensures_nothing_unverified_left_on_disk(result):
+        return result['clean']
+
+    def ensures_failure_closes_within_the_time_outs(result):
+        return result['ok'] or (result['closed'] and result['seconds'] <= 2 * FAST + SLACK)       # two awaits, one time-out each
+
+    def ensures_blob_still_downloadable_from_an_honest_server(result):
+        return result['recovered']
+
+    def samples():
+        big = ('oversized json', 'endless garbage with braces')
+        for lie in SERVER_LIES:
+            for position, patterns in ((0, ('glued', 'hdr|body')), (1, ('hdr|body',))):
+                for s2c in patterns if lie not in big else ('k=65536',):
+                    yield dict(lie=lie, position=position, s2c=s2c, unsolicited=False)
+        for lie in ('wrong hash announced', 'length one less', 'error response', 'availability names another blob', 'unknown rate word',
+                    'malformed json', 'first byte corrupted', 'short body then silence', 'excess bytes after the blob', 'header twice'):
+            yield dict(lie=lie, position=0, s2c='ones', unsolicited=False)
+            yield dict(lie=lie, position=1, s2c='k=7', unsolicited=False)
+        for lie in ('honest', 'wrong hash announced'):
+            yield dict(lie=lie, position=0, s2c='glued', unsolicited=True)
+
+
+# ---- lying client
+
+def request_for(blob_hash):
+    return BlobRequest.make_request_for_blob_hash(blob_hash).serialize()
+
+
+def lie_of_client(lie, held, unverified):
+    """fragments a scripted client sends"""
+    good = request_for(held)
+    table = {
+        'oversized request': [b' ' * 1000 + good],
+        'oversized in fragments': [b'{"requested_blob": "' + b'a' * 100] * 12,
+        'oversized garbage': [b'\x00' * 5000],
+        'just below the limit, invalid': [b'x' * 1198 + b'}'],
+        'malformed json': [b'{"requested_blob": }'],
+        'binary garbage with a brace': [b'\xff\xfe\x00}'],
+        'garbage without a brace then silence': [b'GET / HTTP/1.1\r\n\r\n'],
+        'json number': [b'5}'],
+        'json list': [b'[{}]'],
+        'empty object': [b'{}'],
+        'foreign keys only': [b'{"hello": "world"}'],
+        'requested_blobs empty': [b'{"requested_blobs": []}'],
+        'requested_blobs not a list': [b'{"requested_blobs": 7}'],
+        'requested_blob is a number': [b'{"requested_blob": 7}'],
+        'requested_blob is not a hash': [b'{"requested_blob": "../../etc/passwd"}'],
+        'unverified blob requested': [request_for(unverified)],
+        'unknown blob requested': [request_for('ab' * 48)],
+        'two requests glued': [good + good],
+        'request then garbage': [good + b'xx'],
+        'request in two halves then close brace twice': [good[:50], good[50:] + b'}'],
+        'nothing at all': [],
+        'honest': [good],
+    }
+    return table[lie]
+
+
+CLIENT_LIES = ['oversized request', 'oversized in fragments', 'oversized garbage', 'just below the limit, invalid', 'malformed json',
+               'binary garbage with a brace', 'garbage without a brace then silence', 'json number', 'json list', 'empty object',
+               'foreign keys only', 'requested_blobs empty', 'requested_blobs not a list', 'requested_blob is a number',
+               'requested_blob is not a hash', 'unverified blob requested', 'unknown blob requested', 'two requests glued',
+               'request then garbage', 'request in two halves then close brace twice', 'nothing at all', 'honest']
+
+
+class ScriptedClient:
+    def __init__(self):
+        self.transport = None
+        self.received = b''
+
+    def connection_made(self, transport):
+        self.transport = transport
+
+    def connection_lost(self, exc):
+        self.transport = None
+
+    def data_received(self, data):
+        self.received += data
+
+
+@proof("C10", "transfer.lying client")
+class LyingClientTransfer:
+    """BOUNDED stand-in (run-time contract check, no deductive part).  The REAL server (holding one verified blob and knowing one
+    unverified one) against a scripted client, optionally after one honest exchange on the same connection: blob bytes are sent only
+    for the verified blob and only after a header naming it; anything but a served request ends with the connection closed within
+    the idle time-out; another connection to the same blob manager is served normally afterwards."""
+    bounded_only = True
+    inputs = dict(lie=TStr(), position=TInt(0, 1), c2s=TStr())
+    note = ("22 behaviours of the client (oversized in one piece / in fragments, malformed and non-object JSON, wrong types, unverified "
+            "/ unknown / invalid blob, glued requests, trailing garbage, silence) x as first message or after an honest exchange x "
+            "re-chunkings glued, 1-byte, 7-byte")
+
+    async def run(lie, position, c2s):
+        loop = asyncio.get_running_loop()
+        facade = LoopFacade(loop)
+        tmp = tempfile.mkdtemp(prefix='c10-')
+        try:
+            for d in ('server', 'client'):
+                os.mkdir(os.path.join(tmp, d))
+            data = BLOBS['text']
+            manager = ServerSide(facade, os.path.join(tmp, 'server'))
+            held = await manager.hold(data)
+            unverified = manager.get_blob(blob_hash_of(b'never downloaded'), 16)
+            server = new_real_server(loop, manager, FAST)
+            peer = ScriptedClient()
+            conn = Connection(peer, server, c2s, 'glued')
+            t0 = loop.time()
+            if position == 1:
+                peer.transport.write(request_for(held.blob_hash))
+                await conn.pump(lambda: peer.received.endswith(data))
+                peer.received = b''
+                conn.to_client.log.clear()
+                t0 = loop.time()
+            for fragment in lie_of_client(lie, held.blob_hash, unverified.blob_hash):
+                if peer.transport is not None and not conn.closed:
+                    peer.transport.write(fragment)
+                    await conn.pump(lambda: False, rounds=2)
+            while not conn.closed and loop.time() - t0 < FAST + SLACK:
+                await conn.pump(lambda: conn.closed, rounds=2)
+                await asyncio.sleep(FAST / 5)
+            seconds = loop.time() - t0
+            served = peer.received.endswith(data) and len(peer.received) > len(data)
+            wire = [w for burst in conn.to_client.log for w in burst]
+            # blob bytes on the wire: any write that is not a JSON object
+            bodies = [w for w in wire if not w.startswith(b'{')]
+            announced = [json.loads(w).get('incoming_blob') for w in wire if w.startswith(b'{')]
+            # another peer, same manager
+            client2, server2 = new_real_client(loop), new_real_server(loop, manager)
+            conn2 = Connection(client2, server2, 'glued', 'glued')
+            blob = new_client_blob(facade, held.blob_hash, os.path.join(tmp, 'client'))
+            again, _ = await download(conn2, client2, blob)
+            others = again and stored_bytes(blob) == data
+            blob.close()
+            server2.connection_lost(None)
+            if not conn.closed:
+                server.connection_lost(None)
+            return dict(closed=conn.closed, seconds=seconds, served=served, bodies=bodies, announced=[a for a in announced if a],
+                        others=others, held=(held.blob_hash, len(data)), data=data)
+        finally:
+            shutil.rmtree(tmp, ignore_errors=True)
+
+    def ensures_blob_bytes_only_for_the_verified_blob_after_its_header(result):
+        h, n = result['held']
+        return all(b == result['data'] for b in result['bodies']) and len(result['bodies']) == len(result['announced']) \
+            and all(a == {'blob_hash': h, 'length': n} for a in result['announced'])
+
+    def ensures_served_only_if_a_complete_request_for_the_held_blob_was_sent(lie, result):
+        # whether glued / garbage-suffixed requests are served depends on the re-chunking; the honest one always is
+        return (not result['served'] or lie in ('honest', 'two requests glued', 'request then garbage',
+                                                'request in two halves then close brace twice')) and (lie != 'honest' or result['served'])
+
+    def ensures_connection_closed_within_the_idle_time_out(result):
+        return result['closed'] and result['seconds'] <= FAST + SLACK
+
+    def ensures_keeps_serving_others(result):
+        return result['others']
+
+    def samples():
+        for lie in CLIENT_LIES:
+            for position in (0, 1):
+                for c2s in ('glued', 'ones', 'k=7'):
+                    yield dict(lie=lie, position=position, c2s=c2s)
 
 
 TRUSTED = [
-    "json: dumps output is ASCII and loads(dumps(x)) == x for structures of str/int/float/list/dict; on arbitrary text loads is a "
-    "function of the text that raises ValueError or returns a value (uninterpreted; the shapes the client can tell apart are "
-    "enumerated in a catalogue); a JSON document followed by further text ending in '}' is not a JSON document (so at most one "
-    "'}'-terminated prefix of a stream parses; stated as the precondition only_header_is and checked natively on every sample)",
-    "asyncio: Event / Future / wait_for behave as the fakes in this file (state machine, InvalidStateError on double completion, "
-    "wait_for returns the awaited result or raises TimeoutError / CancelledError); a protocol whose data_received raises has its "
-    "transport closed by the event loop",
+    "json: dumps output is ASCII and loads(dumps(x)) == x for structures of str/int/float/bool/list/dict; on arbitrary text loads is a "
+    "function of the text that raises ValueError (JSONDecodeError, UnicodeDecodeError) or returns a value -- uninterpreted, the shapes "
+    "the code can tell apart being enumerated in two catalogues (responses: int, list, {}, foreign key, every combination of "
+    "incoming_blob absent/error/ok/without hash/not a dict with and without a rate answer; requests: int, list, null, {}, foreign key, "
+    "12 combinations of the request keys well- and ill-typed, each with and without a foreign key)",
+    "SMT-LIB str.indexof: -1 <= r < max(len(s), 1), and r >= 0 implies s[r] == needle for a one-byte needle (added to the path "
+    "condition as lemmas wherever a parsed text contains an indexof term)",
+    "asyncio: Event / Future / wait_for / create_task as modelled by the engine (pyvc.aio, cooperative FIFO scheduling, time-outs only "
+    "as outcomes chosen by the harness through ScriptedFuture); a protocol whose data_received raises has its transport closed by the "
+    "event loop (selector transport _fatal_error)",
     "time.perf_counter() increases between the start and the end of a download (the throughput log line does not divide by zero); "
     "float()/round() are used for that log line only and are abstracted",
     "set() of the requested hashes behaves as a duplicate-free collection of unspecified order",
-    "HashBlobWriter / blob verification (C01) for what happens to the bytes after they reach the writer",
+    "HashBlobWriter / blob verification (C01) for what happens to the bytes after they reach the writer (the stand-ins run the real ones)",
+    "stand-ins: the in-memory Wire / LoopFacade.sendfile deliver exactly the bytes written, in order, re-chunked as the pattern says, "
+    "report a closed transport to the peer as connection_lost, and close the transport of a protocol whose data_received raised",
 ]
 NOT_DECIDED = [
-    "every time-out clause (peer_timeout, idle_timeout, transfer_timeout): time-outs appear only as possible outcomes of awaits",
-    "'keeps serving others' and whole-connection behaviour: only the bounded stand-ins exercise several connections",
-    "server.data_received below the size limit (framing of fragmented requests, malformed JSON): bytes.rpartition on symbolic "
-    "bytes is outside the engine's reach (/tmp/engine_gaps/C10_1.py): bounded stand-in only",
+    "every time-out clause (peer_timeout, idle_timeout, transfer_timeout): deductively time-outs appear only as possible outcomes of "
+    "awaits; the stand-ins measure them with 0.05 s time-outs and 2 s scheduling slack",
+    "'keeps serving others' and whole-connection behaviour (connection_made/lost, close_on_idle, download_blob wrapper, request_blob, "
+    "BlobDownloader): only the bounded stand-ins exercise several requests and connections",
+    "liveness of header recognition for headers other than the three concrete honest ones (for arbitrary text only safety is proved: "
+    "what is recognised is the parse of the prefix in front of the rest); first-ness of the recognised prefix rests on the JSON grammar",
     "the misbehaviour catalogue at every message position and all re-chunkings of whole transfers: bounded stand-ins only",
-    "uniqueness/first-ness of the recognised header is assumed from the JSON grammar, not derived",
+    "JSON values outside the two catalogues of shapes (e.g. nested containers as leaf values)",
+    "resource use of a peer that never completes a header (the client buffer is unbounded until the time-out; each fragment re-scans it)",
 ]
 ASSUMPTIONS = [
     "data_received is never called with an empty fragment (asyncio delivers EOF through eof_received)",
     "connection_manager is None on the client (it only counts bytes)",
+    "server.data_received[oversized]: the buffer is n filler bytes for arbitrary n (only its length is read before closing)",
+    "header-phase proofs: the writer accepts the bytes (writer failures are covered by client._write)",
 ]
